@@ -179,11 +179,16 @@ Definition parts_of (E : env) (t : Z) : list Z :=
   | _ => [0]
   end.
 
-Definition subscribes (m : member) (t : Z) : bool := zmem t (m_topics m).
+(* member id -> subscription: all that assignPartitions reads of the members *)
+Definition subs (ms : list (Z * member)) : list (Z * list Z) :=
+  map (fun e => (fst e, m_topics (snd e))) ms.
 
-Definition eligible (ms : list (Z * member)) (t : Z) : list Z :=
-  filter (fun id => match alookup id ms with Some m => subscribes m t | None => false end)
-         (zsort (akeys ms)).
+(* memberSubscribes *)
+Definition subscribes (sm : list (Z * list Z)) (id t : Z) : bool :=
+  match alookup id sm with Some ts => zmem t ts | None => false end.
+
+Definition eligible (sm : list (Z * list Z)) (t : Z) : list Z :=
+  filter (fun id => subscribes sm id t) (zsort (akeys sm)).
 
 (* partitions[idx] goes to eligible[idx % len(eligible)]: the ones of member id *)
 Fixpoint rr_pick (elig : list Z) (ps : list Z) (i : nat) (id : Z) : list Z :=
@@ -195,22 +200,22 @@ Fixpoint rr_pick (elig : list Z) (ps : list Z) (i : nat) (id : Z) : list Z :=
       else rr_pick elig ps' (S i) id
   end.
 
-Definition subscribed_topics (ms : list (Z * member)) : list Z :=
-  zsort (zdedup (flat_map (fun e => m_topics (snd e)) ms)).
+Definition subscribed_topics (sm : list (Z * list Z)) : list Z :=
+  zsort (zdedup (flat_map snd sm)).
 
-Definition assign_topic (E : env) (ms : list (Z * member)) (id t : Z) : list Z :=
-  match eligible ms t with
+Definition assign_topic (E : env) (sm : list (Z * list Z)) (id t : Z) : list Z :=
+  match eligible sm t with
   | [] => []
   | el => rr_pick el (parts_of E t) 0 id
   end.
 
-Definition assign_for (E : env) (ms : list (Z * member)) (id : Z) : tassign :=
-  flat_map (fun t => match assign_topic E ms id t with [] => [] | ps => [(t, ps)] end)
-           (subscribed_topics ms).
+Definition assign_for (E : env) (sm : list (Z * list Z)) (id : Z) : tassign :=
+  flat_map (fun t => match assign_topic E sm id t with [] => [] | ps => [(t, ps)] end)
+           (subscribed_topics sm).
 
 (* assignPartitions: an entry (possibly nil) for every member *)
 Definition assign_partitions (E : env) (g : group) : list (Z * tassign) :=
-  map (fun id => (id, assign_for E (g_members g) id)) (sorted_ids g).
+  map (fun id => (id, assign_for E (subs (g_members g)) id)) (sorted_ids g).
 
 Definition assignment_of (g : group) (id : Z) : tassign :=
   match alookup id (g_assign g) with Some a => a | None => [] end.
@@ -310,8 +315,15 @@ Definition member_list (g : group) : list (Z * list Z) :=
   map (fun id => (id, match alookup id (g_members g) with Some m => m_topics m | None => [] end))
       (sorted_ids g).
 
-Definition join (E : env) (s : st) (mid fresh sess reb : Z) (topics : list Z) (now : Z) : st * reply :=
-  let g := match load s now with Some g => g | None => new_group end in
+(* What an operation does to the group: [Keep] leaves it (possibly just loaded) in
+   memory without persisting, [Save] stores it in memory and persists it, [Gone]
+   deletes it from memory and from the store. *)
+Inductive outcome :=
+| Keep (g : group) (r : reply)
+| Save (g : group) (r : reply)
+| Gone (r : reply).
+
+Definition join_g (g : group) (mid fresh sess reb : Z) (topics : list Z) (now : Z) : outcome :=
   let timeout := if reb >? 0 then reb else default_rebalance in
   let '(exists_, id, m0) :=
     match alookup mid (g_members g) with
@@ -338,66 +350,56 @@ Definition join (E : env) (s : st) (mid fresh sess reb : Z) (topics : list Z) (n
     if phase_eqb (g_phase g4) PStable || phase_eqb (g_phase g4) PCompleting
     then (g4, true) else complete_if_ready g4 in
   let is_leader := opt_z_eqb (g_leader g5) (Some id) in
-  (commit_group E s g5,
-   RJoin (if ready then NONE else REBALANCE_IN_PROGRESS) (g_gen g5) (g_leader g5) id
-         (if ready && is_leader then member_list g5 else [])).
+  Save g5 (RJoin (if ready then NONE else REBALANCE_IN_PROGRESS) (g_gen g5) (g_leader g5) id
+                 (if ready && is_leader then member_list g5 else [])).
 
-Definition sync (E : env) (s : st) (mid gen now : Z) : st * reply :=
-  match load s now with
-  | None => (s, RSync UNKNOWN_MEMBER_ID [])
-  | Some g =>
-      let s1 := set_mem s g in
-      if negb (gen =? g_gen g) then (s1, RSync ILLEGAL_GENERATION [])
-      else if negb (amem mid (g_members g)) then (s1, RSync UNKNOWN_MEMBER_ID [])
-      else if phase_eqb (g_phase g) PPreparing then (s1, RSync REBALANCE_IN_PROGRESS [])
+Definition sync_g (E : env) (g : group) (mid gen : Z) : outcome :=
+  if negb (gen =? g_gen g) then Keep g (RSync ILLEGAL_GENERATION [])
+  else if negb (amem mid (g_members g)) then Keep g (RSync UNKNOWN_MEMBER_ID [])
+  else if phase_eqb (g_phase g) PPreparing then Keep g (RSync REBALANCE_IN_PROGRESS [])
+  else
+    let need := phase_eqb (g_phase g) PCompleting && (Z.of_nat (length (g_assign g)) =? 0) in
+    if need && negb (opt_z_eqb (g_leader g) (Some mid)) then Keep g (RSync REBALANCE_IN_PROGRESS [])
+    else
+      let g1 := if need
+                then mark_stable (mkGroup (g_gen g) (g_leader g) (g_phase g) (g_members g)
+                                          (assign_partitions E g) (g_rebto g) (g_deadline g))
+                else g in
+      let a := assignment_of g1 mid in
+      match a with
+      | [] => if phase_eqb (g_phase g1) PStable
+              then Save g1 (RSync NONE a)
+              else Keep g1 (RSync REBALANCE_IN_PROGRESS [])
+      | _ => Save g1 (RSync NONE a)
+      end.
+
+Definition heartbeat_g (g : group) (mid gen now : Z) : outcome :=
+  match alookup mid (g_members g) with
+  | None => Keep g (RErr UNKNOWN_MEMBER_ID)
+  | Some m =>
+      if negb (gen =? g_gen g) then Keep g (RErr ILLEGAL_GENERATION)
       else
-        let need := phase_eqb (g_phase g) PCompleting && (Z.of_nat (length (g_assign g)) =? 0) in
-        if need && negb (opt_z_eqb (g_leader g) (Some mid)) then (s1, RSync REBALANCE_IN_PROGRESS [])
-        else
-          let g1 := if need
-                    then mark_stable (mkGroup (g_gen g) (g_leader g) (g_phase g) (g_members g)
-                                              (assign_partitions E g) (g_rebto g) (g_deadline g))
-                    else g in
-          let a := assignment_of g1 mid in
-          match a with
-          | [] => if phase_eqb (g_phase g1) PStable
-                  then (commit_group E s g1, RSync NONE a)
-                  else (set_mem s g1, RSync REBALANCE_IN_PROGRESS [])
-          | _ => (commit_group E s g1, RSync NONE a)
-          end
+        Save (with_members g (aset mid (mkMember (m_topics m) (m_session m) now (m_joingen m)) (g_members g)))
+             (RErr (if phase_eqb (g_phase g) PStable then NONE else REBALANCE_IN_PROGRESS))
   end.
 
-Definition heartbeat (E : env) (s : st) (mid gen now : Z) : st * reply :=
-  match load s now with
-  | None => (s, RErr UNKNOWN_MEMBER_ID)
-  | Some g =>
-      let s1 := set_mem s g in
-      match alookup mid (g_members g) with
-      | None => (s1, RErr UNKNOWN_MEMBER_ID)
-      | Some m =>
-          if negb (gen =? g_gen g) then (s1, RErr ILLEGAL_GENERATION)
-          else
-            let g1 := with_members g (aset mid (mkMember (m_topics m) (m_session m) now (m_joingen m)) (g_members g)) in
-            (commit_group E s g1,
-             RErr (if phase_eqb (g_phase g) PStable then NONE else REBALANCE_IN_PROGRESS))
-      end
-  end.
+Definition leave_g (g : group) (mid now : Z) : outcome :=
+  if negb (amem mid (g_members g)) then Keep g (RErr UNKNOWN_MEMBER_ID)
+  else
+    let g1 := mkGroup (g_gen g) (g_leader g) (g_phase g) (aremove mid (g_members g))
+                      (aremove mid (g_assign g)) (g_rebto g) (g_deadline g) in
+    match g_members g1 with
+    | [] => Gone (RErr NONE)
+    | _ =>
+        let g2 := if opt_z_eqb (g_leader g1) (Some mid) then with_leader g1 None else g1 in
+        Save (start_rebalance 0 now g2) (RErr NONE)
+    end.
 
-Definition leave (E : env) (s : st) (mid now : Z) : st * reply :=
-  match load s now with
-  | None => (s, RErr UNKNOWN_MEMBER_ID)
-  | Some g =>
-      if negb (amem mid (g_members g)) then (set_mem s g, RErr UNKNOWN_MEMBER_ID)
-      else
-        let g1 := mkGroup (g_gen g) (g_leader g) (g_phase g) (aremove mid (g_members g))
-                          (aremove mid (g_assign g)) (g_rebto g) (g_deadline g) in
-        match g_members g1 with
-        | [] => (mkSt None None (s_off s), RErr NONE)
-        | _ =>
-            let g2 := if opt_z_eqb (g_leader g1) (Some mid) then with_leader g1 None else g1 in
-            (commit_group E s (start_rebalance 0 now g2), RErr NONE)
-        end
-  end.
+(* OffsetCommit's membership / generation check *)
+Definition commit_err (g : group) (mid gen : Z) : Z :=
+  if negb (amem mid (g_members g)) then UNKNOWN_MEMBER_ID
+  else if negb (gen =? g_gen g) then ILLEGAL_GENERATION
+  else NONE.
 
 Definition off_key_eqb (a b : Z * Z) : bool := (fst a =? fst b) && (snd a =? snd b).
 Fixpoint off_set (k : Z * Z) (v : Z) (l : list ((Z * Z) * Z)) : list ((Z * Z) * Z) :=
@@ -411,24 +413,14 @@ Fixpoint off_get (k : Z * Z) (l : list ((Z * Z) * Z)) : Z :=
   | (k', v') :: l' => if off_key_eqb k k' then v' else off_get k l'
   end.
 
-Definition commit (s : st) (mid gen topic part off now : Z) : st * reply :=
-  match load s now with
-  | None => (s, RErr UNKNOWN_MEMBER_ID)
-  | Some g =>
-      let s1 := set_mem s g in
-      if negb (amem mid (g_members g)) then (s1, RErr UNKNOWN_MEMBER_ID)
-      else if negb (gen =? g_gen g) then (s1, RErr ILLEGAL_GENERATION)
-      else (mkSt (s_mem s1) (s_store s1) (off_set (topic, part) off (s_off s1)), RErr NONE)
-  end.
-
 Definition expired (now : Z) (m : member) : bool :=
   let timeout := if m_session m =? 0 then default_session else m_session m in
   now - m_hb m >? timeout.
 
-(* delete members selected by [dead]; their assignments; clear the leader if it died *)
-Definition drop_members (dead : Z -> member -> bool) (g : group) : group :=
-  let gone := filter (fun e => dead (fst e) (snd e)) (g_members g) in
-  let ms := filter (fun e => negb (dead (fst e) (snd e))) (g_members g) in
+(* delete the members selected by [dead], their assignments; clear the leader if it died *)
+Definition drop_members (dead : member -> bool) (g : group) : group :=
+  let gone := filter (fun e => dead (snd e)) (g_members g) in
+  let ms := filter (fun e => negb (dead (snd e))) (g_members g) in
   let asg := filter (fun e => negb (zmem (fst e) (akeys gone))) (g_assign g) in
   let ld := match g_leader g with
             | Some l => if zmem l (akeys gone) then None else Some l
@@ -436,12 +428,14 @@ Definition drop_members (dead : Z -> member -> bool) (g : group) : group :=
             end in
   mkGroup (g_gen g) ld (match ms with [] => PEmpty | _ => g_phase g end) ms asg (g_rebto g) (g_deadline g).
 
-Definition any_dead (dead : Z -> member -> bool) (g : group) : bool :=
-  existsb (fun e => dead (fst e) (snd e)) (g_members g).
+Definition any_dead (dead : member -> bool) (g : group) : bool :=
+  existsb (fun e => dead (snd e)) (g_members g).
 
 (* removeExpiredMembers *)
 Definition remove_expired (now : Z) (g : group) : group * bool :=
-  (drop_members (fun _ m => expired now m) g, any_dead (fun _ m => expired now m) g).
+  (drop_members (expired now) g, any_dead (expired now) g).
+
+Definition lagging (gen : Z) (m : member) : bool := negb (m_joingen m =? gen).
 
 (* dropRebalanceLaggers *)
 Definition drop_laggers (now : Z) (g : group) : group * bool :=
@@ -449,30 +443,60 @@ Definition drop_laggers (now : Z) (g : group) : group * bool :=
   | None => (g, false)
   | Some d =>
       if now <? d then (g, false)
-      else (drop_members (fun _ m => negb (m_joingen m =? g_gen g)) g,
-            any_dead (fun _ m => negb (m_joingen m =? g_gen g)) g)
+      else (drop_members (lagging (g_gen g)) g, any_dead (lagging (g_gen g)) g)
   end.
 
-Definition cleanup (E : env) (s : st) (now : Z) : st :=
-  match s_mem s with
-  | None => s
-  | Some g =>
-      let '(g1, removed) := remove_expired now g in
-      let '(g2, lost) := drop_laggers now g1 in
-      match g_members g2 with
-      | [] => mkSt None None (s_off s)
-      | _ => if removed || lost then commit_group E s (start_rebalance 0 now g2) else s
-      end
+(* cleanupGroups for the group; None = nothing to do *)
+Definition cleanup_g (g : group) (now : Z) : option outcome :=
+  let '(g1, removed) := remove_expired now g in
+  let '(g2, lost) := drop_laggers now g1 in
+  match g_members g2 with
+  | [] => Some (Gone RNone)
+  | _ => if removed || lost then Some (Save (start_rebalance 0 now g2) RNone) else None
+  end.
+
+Definition apply (E : env) (s : st) (o : outcome) : st * reply :=
+  match o with
+  | Keep g r => (set_mem s g, r)
+  | Save g r => (commit_group E s g, r)
+  | Gone r => (mkSt None None (s_off s), r)
   end.
 
 Definition step (E : env) (s : st) (o : op) : st * reply :=
   match o with
-  | Join mid fresh sess reb topics now => join E s mid fresh sess reb topics now
-  | Sync mid gen now => sync E s mid gen now
-  | Heartbeat mid gen now => heartbeat E s mid gen now
-  | Leave mid now => leave E s mid now
-  | Commit mid gen t p off now => commit s mid gen t p off now
-  | Cleanup now => (cleanup E s now, RNone)
+  | Join mid fresh sess reb topics now =>
+      let g := match load s now with Some g => g | None => new_group end in
+      apply E s (join_g g mid fresh sess reb topics now)
+  | Sync mid gen now =>
+      match load s now with
+      | None => (s, RSync UNKNOWN_MEMBER_ID [])
+      | Some g => apply E s (sync_g E g mid gen)
+      end
+  | Heartbeat mid gen now =>
+      match load s now with
+      | None => (s, RErr UNKNOWN_MEMBER_ID)
+      | Some g => apply E s (heartbeat_g g mid gen now)
+      end
+  | Leave mid now =>
+      match load s now with
+      | None => (s, RErr UNKNOWN_MEMBER_ID)
+      | Some g => apply E s (leave_g g mid now)
+      end
+  | Commit mid gen t p off now =>
+      match load s now with
+      | None => (s, RErr UNKNOWN_MEMBER_ID)
+      | Some g =>
+          let e := commit_err g mid gen in
+          (mkSt (Some g) (s_store s) (if e =? NONE then off_set (t, p) off (s_off s) else s_off s), RErr e)
+      end
+  | Cleanup now =>
+      match s_mem s with
+      | None => (s, RNone)
+      | Some g => match cleanup_g g now with
+                  | Some o => apply E s o
+                  | None => (s, RNone)
+                  end
+      end
   | Failover => (mkSt None (s_store s) (s_off s), RNone)
   end.
 
